@@ -106,7 +106,7 @@ func init() {
 			"fresh path can reach a Metastore/KMS method; (external-only-via-cache) under closure-binding-sensitive reachability every path from Session.Encrypt/Decrypt to a Metastore or KeyManagementService method passes through a " +
 			"keyCacher implementation's GetOrLoad/GetOrLoadLatest; (factory-wide-sk-cache) every session's skCache is the one object in SessionFactory.systemKeys, assigned only by NewSessionFactory; (reload-once) load() invokes the " +
 			"loader exactly once, unconditionally; (disabled-means-never) caching key caches are constructed only under their policy flag and neverCache retains nothing; (stale-means-reload, shared with C05) freshness is decided by " +
-			"isReloadRequired(entry, RevokeCheckInterval). Call counts over histories and interval arithmetic are not decided.",
+			"isReloadRequired(entry, RevokeCheckInterval); loadedAt is written only by the entry constructor and load(); the generic cache's Set really stores a refreshed entry; the latest pointer only moves forward. Call counts over histories and interval arithmetic are not decided.",
 		NotDecided:  []string{"numbers of external calls over operation histories", "interval boundaries / clock arithmetic", "'working set fits the cache' (eviction behaviour of pkg/cache)"},
 		Assumptions: []string{"interface invokes resolve to the repo's implementations (user-supplied Metastore/KMS/AEAD are opaque)", "log.Debugf and metrics calls make no metastore/KMS calls"},
 		Tech:        "static analysis: closure-binding-sensitive call-graph reachability (who-may-call), guarded-by-condition on SSA",
